@@ -634,7 +634,52 @@ func selfTest(verifDir, prop, tier string, seed uint64, n int, procs []int) (boo
 
 var selfTestNote string
 
+// raceReplay re-runs the free-running race mode and reports whether the
+// recorded signature shows up again (race mode cannot be replayed exactly).
+func raceReplay(path string) int {
+	b, err := os.ReadFile(path)
+	if err != nil {
+		fmt.Println("cannot read replay file:", err)
+		return 2
+	}
+	var rf struct {
+		Signature string `json:"signature"`
+		First     string `json:"first_seen_in"`
+	}
+	if json.Unmarshal(b, &rf) != nil || rf.Signature == "" {
+		fmt.Println("not a race replay file")
+		return 2
+	}
+	verifDir := os.Getenv("VSIM_VERIF")
+	if verifDir == "" {
+		verifDir = "/verif"
+	}
+	outDir, err := os.MkdirTemp(filepath.Join(verifDir, ".cache"), "race-replay-")
+	if err != nil {
+		fmt.Println("harness:", err)
+		return 2
+	}
+	defer os.RemoveAll(outDir)
+	viol, stats, harness := raceMode(verifDir, outDir, filepath.Join(outDir, "replays"), "quick", envU64("VERIF_SEED", 1), runtime.NumCPU())
+	for _, h := range harness {
+		fmt.Println("HARNESS:", h)
+	}
+	fmt.Println("race mode re-run:", stats)
+	for _, v := range viol {
+		if strings.Contains(v.Detail, rf.Signature) {
+			fmt.Printf("REPRODUCED C05/race: %s\n", v.Detail)
+			fmt.Printf("VIOLATION property=C05 replay=%s\n", path)
+			return 1
+		}
+	}
+	fmt.Printf("NOT REPRODUCED: signature %q did not show up in this re-run\n", rf.Signature)
+	return 0
+}
+
 func driverMain() int {
+	if p := os.Getenv("VSIM_RACE_REPLAY"); p != "" {
+		return raceReplay(p)
+	}
 	if n := envInt("VSIM_SELFTEST", 0); n > 0 {
 		verifDir := os.Getenv("VSIM_VERIF")
 		if verifDir == "" {
